@@ -12,6 +12,8 @@ from .values import (
     as_parts, is_stringy, show, to_tmpl,
 )
 
+MUTATORS = {"add", "update", "append", "extend", "insert", "remove", "discard", "pop", "clear", "setdefault",
+            "intersection_update", "difference_update", "symmetric_difference_update", "sort", "reverse"}
 PURE_PY = {"isinstance", "issubclass", "len", "hasattr", "callable", "repr", "str", "bool", "int", "id", "type"}
 
 
@@ -35,6 +37,7 @@ DEFAULT_OPAQUE = {
 class Evaluator(PE):
     keep_atom: Optional[Callable[[str], bool]] = None
     profile: Optional[Dict[Any, int]] = None
+    empty_loops = False
     site_nodes: List[Any] = []
     merge_enabled = True
     inline_modules = frozenset({
@@ -61,6 +64,7 @@ class Evaluator(PE):
     def __init__(self, repo, **kw):
         fo = set(kw.pop("force_opaque", ())) | DEFAULT_OPAQUE
         fo -= set(kw.pop("allow_inline", ()))
+        self.empty_loops = bool(kw.pop("empty_loops", False))
         super().__init__(repo, force_opaque=fo, **kw)
         self.site_nodes = []
         self.models.setdefault("mashumaro.core.meta.code.builder::CodeBuilder.ensure_object_imported", _m_ensure_object)
@@ -199,7 +203,7 @@ class Evaluator(PE):
                 return [(Lst(a.items, getattr(a, "open", False), getattr(a, "name", "")) if obj is builtins.list else (Tup(a.items) if not getattr(a, "open", False) else a), p)]
             if isinstance(a, Dct):
                 els, open_ = self.iter_elems(a, p, e)
-                return [(Lst(els, open_, name=a.name), p)]
+                return [(Lst(els, open_, name=a.name, opens=self.last_opens if open_ else ()), p)]
             return [(self.opaque_call(name, args, kwargs, e, args), p)]
         if obj is builtins.tuple and not args:
             return [(Tup([]), p)]
@@ -230,7 +234,7 @@ class Evaluator(PE):
                     vals.append(r[0][0])
                     q = r[0][1]
                 if ok:
-                    return [(Lst(vals, open_, name="map"), q)]
+                    return [(Lst(vals, open_, name="map", opens=self.last_opens if open_ else ()), q)]
             return [(self.opaque_call(name, args, kwargs, e, args), p)]
         if obj is builtins.getattr and len(args) >= 2 and isinstance(args[1], Const):
             v = self.getattr_v(args[0], args[1].v, p, e)
@@ -297,6 +301,10 @@ class Evaluator(PE):
                 if recv.name == "re" or v.name.startswith("re."):
                     return [(self.opaque_call(v.name, args, kwargs, e, args), p)]
                 return self.call_py(v, args, kwargs, p, e)
+        if isinstance(recv, Sym) and attr in MUTATORS and isinstance(e.func, ast.Attribute) and isinstance(e.func.value, ast.Name):
+            newv = self.opaque_call(f"{show(recv)}.{attr}", args, kwargs, e, [recv] + list(args))
+            self._store_name(e.func.value.id, newv, p)
+            return [(Const(None), p)]
         if isinstance(recv, Sym) and recv.name.startswith("super()"):
             return self._super_call(attr, args, kwargs, p, e)
         return [(self.opaque_call(f"{show(recv)}.{attr}", args, kwargs, e, [recv] + list(args)), p)]
@@ -377,7 +385,11 @@ class Evaluator(PE):
         if attr == "copy":
             return [(Dct(recv.kind, recv.entries, recv.open, recv.name), p)]
         if attr == "update":
-            d2 = Dct(recv.kind, recv.entries, True, recv.name)
+            els, open_ = self.iter_elems(args[0], p, e) if args and isinstance(args[0], (Dct, Lst, Tup)) else ([], True)
+            src = self.last_opens if (args and isinstance(args[0], (Dct, Lst, Tup))) else ((show(args[0]),) if args else ())
+            d2 = Dct(recv.kind, recv.entries, recv.open or open_, recv.name, opens=tuple(recv.opens) + (tuple(src) if open_ else ()))
+            for el in els:
+                d2.entries[show(el)] = (el, el)
             store(d2)
             return [(Const(None), p)]
         return [(self.opaque_call(f"{show(recv)}.{attr}", args, kwargs, e, args), p)]
@@ -402,6 +414,10 @@ class Evaluator(PE):
             els, open_ = self.iter_elems(args[0], p, e)
             store(Lst(recv.items + tuple(els), recv.open or open_, recv.name))
             return [(Const(None), p)]
+        if attr in ("sort", "reverse"):
+            # order of the known items is no longer known
+            store(self.opaque_call(f"{show(recv)}.{attr}", args, kwargs, e, [recv] + list(args) + list(kwargs.values())))
+            return [(Const(None), p)]
         if attr == "index":
             for i, it in enumerate(recv.items):
                 if it.key() == args[0].key():
@@ -413,6 +429,7 @@ class Evaluator(PE):
         if attr == "join" and len(args) == 1 and t.is_literal():
             sep = t.literal()
             els, open_ = self.iter_elems(args[0], p, e) if isinstance(args[0], (Lst, Tup, Dct)) else (None, True)
+            opens = self.last_opens if els is not None else ()
             if els is None:
                 return [(Tmpl([Hole(self.sym(f"{sep!r}.join({show(args[0])})", e, [args[0]]))]), p)]
             parts: List[Any] = []
@@ -428,7 +445,8 @@ class Evaluator(PE):
                 conv = convs.pop() if len(convs) == 1 and els else ""
                 if conv == "?":
                     conv = ""
-                parts.append(Hole(self.sym(f"more({show(args[0])})", e, [args[0]]), conv, more=True, sep=sep))
+                label = " + ".join(opens) if opens else show(args[0])
+                parts.append(Hole(self.sym(f"more({label})", e, [args[0]]), conv, more=True, sep=sep))
             return [(Tmpl(parts), p)]
         if attr == "format" and not kwargs:
             # positional '{}' substitution only
@@ -846,7 +864,8 @@ class Evaluator(PE):
         for (l, r), q in self.ev_many([load, st.value], p):
             if isinstance(st.op, ast.BitOr) and isinstance(l, Dct):
                 els, open_ = self.iter_elems(r, q, st.value) if isinstance(r, (Dct, Lst, Tup)) else ([], True)
-                d2 = Dct(l.kind, l.entries, l.open or open_, l.name)
+                src = self.last_opens if isinstance(r, (Dct, Lst, Tup)) else (show(r),)
+                d2 = Dct(l.kind, l.entries, l.open or open_, l.name, opens=tuple(l.opens) + (tuple(src) if open_ else ()))
                 for el in els:
                     d2.entries[show(el)] = (el, el)
                 self.bind(st.target, d2, q)
@@ -921,9 +940,20 @@ class Evaluator(PE):
 
     def st_For(self, st, p, live):
         out = []
-        for it, q in self.ev(st.iter, p):
-            els, open_ = self.iter_elems(it, q, st.iter)
-            paths = [q]
+        for it, q0 in self.ev(st.iter, p):
+            els, open_ = self.iter_elems(it, q0, st.iter)
+            starts = [(els, q0)]
+            if self.empty_loops and open_ and not isinstance(it, (Lst, Tup, Dct)):
+                starts = []
+                for b, q1 in self.atom(f"nonempty({show(it)})", q0):
+                    starts.append((els if b else [], q1))
+            for els, q in starts:
+              paths = [q]
+              self._for_body(st, els, paths, out, live)
+        return out
+
+    def _for_body(self, st, els, paths, out, live):
+        if True:
             for el in els:
                 nxt = []
                 for r in paths:
